@@ -29,7 +29,7 @@ import logging
 from lxml.builder import E
 
 from spyne.protocol.soap.soap11 import Soap11
-from spyne.protocol.xml import _append
+from spyne.protocol.xml import _append, fault_text
 from spyne.util.six import string_types
 from spyne.util.etreeconv import root_dict_to_etree
 from spyne.const.xml import NS_SOAP12_ENV, NS_XML, PREFMAP
@@ -85,13 +85,14 @@ class Soap12(Soap11):
 
     def fault_to_parent(self, ctx, cls, inst, parent, ns, **_):
         reason = E("{%s}Reason" % self.ns_soap_env)
-        reason.append(E("{%s}Text" % self.ns_soap_env, inst.faultstring,
+        reason.append(E("{%s}Text" % self.ns_soap_env,
+                                                fault_text(inst.faultstring),
                         **{'{%s}lang' % NS_XML: inst.lang}))
 
         subelts = [
             None,  # The code tag is put here down the road
             reason,
-            E("{%s}Role" % self.ns_soap_env, inst.faultactor),
+            E("{%s}Role" % self.ns_soap_env, fault_text(inst.faultactor)),
         ]
 
         return self._fault_to_parent_impl(ctx, cls, inst, parent, ns, subelts)
